@@ -1,6 +1,7 @@
 -------------------------------- MODULE Gen_Cli --------------------------------
 (* Generator: the full decision table of `dist` and `query` parameter reconciliation with the outcome the definition
-   requires.  Parameter tokens: "DEF" = built-in default, "K1" = the database's, "K2" (k differs), "K3" (prefix differs). *)
+   requires.  Parameter tokens: "DEF" = built-in default, "K1" = the database's, "K2" (k differs), "K3" (prefix differs),
+   "K4" (prefix = reverse complement of K3's). *)
 EXTENDS Cli, Json, IOUtils, SequencesExt, FiniteSetsExt
 Enc(o) == IF o.ok THEN [ok |-> TRUE, ks |-> o.ks] ELSE [ok |-> FALSE, ks |-> ""]
 EncE(e) == IF e = None THEN "none" ELSE IF e = Partial THEN "partial" ELSE The(e)
